@@ -106,11 +106,13 @@ def netbios_execute(case, stats):
     data, off = case["data"], case["offset"]
     if off == 0x41:
         e = lib(utils.netbios_encode, data)
-    else:
+    elif len(data) % 2:
         e = lib(utils.netbios_encode, data, off)
+    else:
+        e = lib(utils.netbios_encode, data=data, offset=off)
     want = b"".join(bytes([(b >> 4) + off, (b & 15) + off]) for b in data)
     eq(e, want, "netbios:encode", f"netbios_encode({data!r},{off})")
-    d = lib(utils.netbios_decode, e, off) if off != 0x41 else lib(utils.netbios_decode, e)
+    d = (lib(utils.netbios_decode, e, off) if len(data) % 3 else lib(utils.netbios_decode, data=e, offset=off)) if off != 0x41 else lib(utils.netbios_decode, e)
     eq(d, data, "netbios:roundtrip", f"netbios_decode(netbios_encode(d)) for offset {off}")
     if off == 0x41:
         # the lower-case variant used on the wire: encode().lower() decodes after .upper()
@@ -265,7 +267,23 @@ def uri_strategy():
         return body
 
     forced = st.tuples(st.one_of(plain, st.text(alphabet=ALNUM, min_size=3, max_size=3).map(lambda s: "/" + s)), st.sampled_from([92, 93])).map(fix)
-    return st.fixed_dictionaries({"uri": st.one_of(plain, near, noslash, forced, forced)})
+
+    # URIs holding percent-escapes: the checksum is over the characters as written, not over what they would decode to.
+    # Either the written form or the percent-decoded form is given checksum 92 / 93.
+    esc = st.tuples(st.text(alphabet=ALNUM, max_size=3), st.sampled_from(["%41", "%54", "%2f", "%2F", "%00", "%ff", "%7e", "%", "%4", "%zz", "%25", "+"]), st.text(alphabet=ALNUM, max_size=2)).map(lambda t: "/" + t[0] + t[1] + t[2])
+
+    def fix_decoded(t):
+        from urllib.parse import unquote
+
+        body, target = t
+        s = sum(ord(c) for c in unquote(body, encoding="latin-1") if c != "/")
+        for c in ALNUM:
+            if (s + ord(c)) % 256 == target:
+                return body + c
+        return body
+
+    escaped = st.one_of(esc, st.tuples(esc, st.sampled_from([92, 93])).map(fix), st.tuples(esc, st.sampled_from([92, 93])).map(fix_decoded))
+    return st.fixed_dictionaries({"uri": st.one_of(plain, near, noslash, forced, forced, escaped)})
 
 
 def uri_execute(case, stats):
@@ -273,7 +291,7 @@ def uri_execute(case, stats):
 
     uri = case["uri"]
     x86, x64 = _check_uri(utils, uri)
-    stats.note(case, len(uri) >= 4, classes=["x86" if x86 else "x64" if x64 else "not_stager"])
+    stats.note(case, len(uri) >= 4, classes=["x86" if x86 else "x64" if x64 else "not_stager", "percent_escape" if "%" in uri else "no_escape"])
 
 
 # ----------------------------------------------------------------------------------------------- generator
